@@ -36,6 +36,8 @@ def gen_network(rng, allow_general=True, allow_hill=True, nmax=4):
         params[k] = rng.choice(RATES)
         c = rng.below(10)
         if c < 6 or not (allow_general or allow_hill):
+            if j > 0 and rng.chance(1, 4):
+                k = "k0"            # several reactions governed by one rate constant (and, in user code, one dict object)
             rx.append(rng.choice(templates)(k))
         elif c < 8 and allow_hill:
             t = rng.choice(["hillpositive", "hillnegative", "proportionalhillpositive", "proportionalhillnegative"])
